@@ -280,7 +280,7 @@ def exc_code(e):
 
 
 def in_model(kind, case):
-    return case[0] not in (102, 103, 104, 105)
+    return case[0] not in (102, 103, 104, 105, 106)
 
 
 def impl(case):
@@ -288,6 +288,10 @@ def impl(case):
         import c11_atomic
         f = c11_atomic.replay(case)
         return [0, []] if f is None else [1, [f["what"]]]
+    if case[0] == 106:  # replay of one zone of the rdata-class family
+        import c11_classes
+        f = c11_classes.replay(case)
+        return [0, []] if f is None else [1, [f["what"] + " (rdclass %s, %s)" % (f.get("rdclass"), f.get("zone"))]]
     if case[0] == 105:  # replay of one commit-window schedule
         import c11_atomic
         f = c11_atomic.replay_commit_window(case)
@@ -499,10 +503,10 @@ def oracle(ctx, kind, case, out):
     if isinstance(out, Err):
         fail("history runner failed: " + out.text, -1)
         return F
-    if case[0] in (102, 103, 104, 105):
+    if case[0] in (102, 103, 104, 105, 106):
         if out[0]:
             fail(("immutability: " if case[0] == 102 else "snapshot isolation: " if case[0] == 103 else
-                  "commit atomicity: " if case[0] == 105 else "reader() atomicity: ") + "; ".join(x.decode("latin-1") if isinstance(x, bytes) else str(x) for x in out[1]), -1)
+                  "commit atomicity: " if case[0] == 105 else "rdata classes: " if case[0] == 106 else "reader() atomicity: ") + "; ".join(x.decode("latin-1") if isinstance(x, bytes) else str(x) for x in out[1]), -1)
         return F
     zk, ops = case
     history = [1]              # every id ever committed, in order
@@ -623,7 +627,9 @@ def extra(ctx):
     import traceback
     import c11_atomic
     F = []
-    for name, fn in (("immutability enumeration", c11_immut.check), ("reader() atomicity test", c11_atomic.check)):
+    import c11_classes
+    for name, fn in (("immutability enumeration", c11_immut.check), ("reader() atomicity test", c11_atomic.check),
+                     ("rdata-class family", c11_classes.check)):
         try:
             F += fn(ctx)
         except Exception:  # noqa  (e.g. a zone cannot even be constructed any more)
